@@ -42,6 +42,15 @@ KINDS = {
                       copy=lambda dest, o, keep, name: dest.create_data_array(name=name or "", copy_from=o, keep_copy_id=keep)),
     "array-text": dict(src=lambda f: f.blocks["blk"].data_arrays["txt"], cont="data_arrays", parent_kind="block",
                        copy=lambda dest, o, keep, name: dest.create_data_array(name=name or "", copy_from=o, keep_copy_id=keep)),
+    # entities WITHOUT content: an array of length 0, a table without rows, a property without values
+    "array-empty": dict(src=lambda f: f.blocks["blk"].data_arrays["nodata"], cont="data_arrays", parent_kind="block",
+                        copy=lambda dest, o, keep, name: dest.create_data_array(name=name or "", copy_from=o, keep_copy_id=keep)),
+    "array-empty2d": dict(src=lambda f: f.blocks["blk"].data_arrays["nodata2"], cont="data_arrays", parent_kind="block",
+                          copy=lambda dest, o, keep, name: dest.create_data_array(name=name or "", copy_from=o, keep_copy_id=keep)),
+    "frame-empty": dict(src=lambda f: f.blocks["blk"].data_frames["norows"], cont="data_frames", parent_kind="block",
+                        copy=lambda dest, o, keep, name: dest.create_data_frame(name=name or "", copy_from=o, keep_copy_id=keep)),
+    "property-empty": dict(src=lambda f: f.sections["sec"].props["novalues"], cont="props", parent_kind="section",
+                           copy=lambda dest, o, keep, name: dest.create_property(name=name or "", copy_from=o, keep_copy_id=keep)),
     "frame": dict(src=lambda f: f.blocks["blk"].data_frames["frame"], cont="data_frames", parent_kind="block",
                   copy=lambda dest, o, keep, name: dest.create_data_frame(name=name or "", copy_from=o, keep_copy_id=keep)),
     "tag": dict(src=lambda f: f.blocks["blk"].tags["tag"], cont="tags", parent_kind="block",
@@ -65,6 +74,9 @@ def BOUNDS(tier):
 
 
 def cases(tier):
+    for kind in RESTORE:
+        for warm in (False, True):
+            yield {"k": "restore", "kind": kind, "warm": warm}
     for kind in KINDS:
         for keep in (True, False):
             for namep in ("none", "new", "colliding"):
@@ -182,7 +194,30 @@ MUTATIONS = {
 }
 
 
+MUTATIONS["array-empty"] = [
+    ("label", lambda e: setattr(e, "label", "changed")),
+    ("unit", lambda e: setattr(e, "unit", "kV")),
+    ("append", lambda e: e.append(np.zeros((2,) + tuple(e.shape[1:])), axis=0)),
+    ("dimension-label", lambda e: setattr(e.dimensions[0], "label", "changed")),
+    ("append-dimension", lambda e: e.append_set_dimension(["x"])),
+]
+MUTATIONS["frame-empty"] = [
+    ("definition", lambda e: setattr(e, "definition", "changed")),
+    ("append-row", lambda e: e.append_rows([(1.5, "x")])),
+    ("units", lambda e: setattr(e, "units", ["s", "s"])),
+]
+MUTATIONS["property-empty"] = [
+    ("values", lambda e: setattr(e, "values", [7])),
+    ("extend", lambda e: e.extend_values([8, 9])),
+    ("unit", lambda e: setattr(e, "unit", "kV")),
+]
+
+
 def menu(kind):
+    if kind in MUTATIONS:
+        return MUTATIONS[kind]
+    if kind.startswith("array-empty"):
+        return MUTATIONS["array-empty"]
     if kind.startswith("array"):
         return MUTATIONS["array"]
     if kind.startswith("section"):
@@ -190,7 +225,140 @@ def menu(kind):
     return MUTATIONS[kind]
 
 
+RESTORE = {
+    # kind: (home parent in file 1, parent in file 2 (created), container attribute, a sibling created up front and deleted later)
+    "block": (lambda f: f, lambda g: g, "blocks", lambda par: par.create_block("scratch", "t")),
+    "array": (lambda f: f.blocks["blk"], lambda g: g.create_block("dest", "t"), "data_arrays",
+              lambda par: par.create_data_array("scratch", "t", data=np.array([1.0]))),
+    "frame": (lambda f: f.blocks["blk"], lambda g: g.create_block("dest", "t"), "data_frames",
+              lambda par: par.create_data_frame("scratch", "t", col_dict={"c": int})),
+    "tag": (lambda f: f.blocks["blk"], lambda g: g.create_block("dest", "t"), "tags", lambda par: par.create_tag("scratch", "t", [0.0])),
+    "mtag": (lambda f: f.blocks["blk"], lambda g: g.create_block("dest", "t"), "multi_tags",
+             lambda par: par.create_multi_tag("scratch", "t", par.create_data_array("scratchpos", "t", data=np.array([1.0])))),
+    "section-root": (lambda f: f, lambda g: g, "sections", lambda par: par.create_section("scratch", "t")),
+    "section-nested": (lambda f: f.sections["sec"], lambda g: g.create_section("dest", "t"), "sections", lambda par: par.create_section("scratch", "t")),
+    "property": (lambda f: f.sections["sec"], lambda g: g.create_section("dest", "t"), "props", lambda par: par.create_property("scratch", [1])),
+}
+
+
+def run_restore(case):
+    """A restore history: the entity is copied into another file with its ids kept, deleted at home, copied back (ids
+    kept), then an unrelated sibling is deleted, then a CHILD of the restored copy (if any), then the restored copy
+    itself, and it is copied back once more.  After every step: the restored copy is complete (equal to the snapshot
+    of the original), the copy in the other file is untouched, deleted things are gone and their names free."""
+    r = R()
+    env.install_seams()
+    env.reset_execution()
+    kind = case["kind"]
+    K = KINDS[kind]
+    home_of, away_of, cattr, mk_sibling = RESTORE[kind]
+    p1, p2 = env.fresh_path("c20r_"), env.fresh_path("c20s_")
+    f = nix.File.open(p1, nix.FileMode.Overwrite)
+    g = nix.File.open(p2, nix.FileMode.Overwrite)
+    cls = "restore|%s" % kind
+    try:
+        seeds.build_rich(f)
+        if case.get("warm"):
+            # an earlier, unrelated deletion of the same kind of container in this process / file
+            w = mk_sibling(home_of(f))
+            getattr(home_of(f), cattr).__delitem__(w.name)
+            if kind == "mtag":
+                del home_of(f).data_arrays["scratchpos"]
+        home = home_of(f)
+        away = away_of(g)
+        sib = mk_sibling(home)
+        src = K["src"](f)
+        name = src.name
+        snap = walker.canon(core_subtree(src))
+        cp = lambda dest, o: (K["copy"](dest, o, True, None, True) if kind.startswith("section") else K["copy"](dest, o, True, None))
+
+        def same(e, what, step):
+            r.evals += 1
+            got = walker.canon(core_subtree(e))
+            if got != snap:
+                r.viol("C20|%s|%s|%s-differs-from-original:%s" % (cls, step, what, ",".join(walker.diff_keys(snap, got)[:2])[:100]),
+                       "%s after '%s' differs from the original: %s" % (what, step, "; ".join(walker.diff(snap, got, limit=3))), {})
+                return False
+            return True
+        for rnd in range(2):
+            cp(away, src) if rnd == 0 else None
+            r.transitions += 1
+            away_copy = getattr(away, cattr)[name]
+            if not same(away_copy, "copy-in-other-file", "copy-out"):
+                return r
+            del getattr(home, cattr)[name]
+            if name in getattr(home, cattr):
+                r.viol("C20|%s|original-not-deleted" % cls, "the original is still there after its deletion (round %d)" % rnd, {})
+                return r
+            back = cp(home, away_copy)
+            r.transitions += 2
+            r.nontrivial += 1
+            if name not in getattr(home, cattr) or not same(getattr(home, cattr)[name], "restored-copy", "copy-back"):
+                if name not in getattr(home, cattr):
+                    r.viol("C20|%s|copy-back-missing" % cls, "after copying back no entity of that name is there", {})
+                return r
+            # an unrelated sibling goes
+            if rnd == 0:
+                del getattr(home, cattr)[sib.name]
+                r.transitions += 1
+                if name not in getattr(home, cattr):
+                    r.viol("C20|%s|restored-copy-vanished-with-unrelated-deletion" % cls,
+                           "deleting the unrelated %s 'scratch' removed the restored copy" % kind, {})
+                    return r
+                if not same(getattr(home, cattr)[name], "restored-copy", "delete-unrelated-sibling") or not same(away_copy, "copy-in-other-file", "delete-unrelated-sibling"):
+                    return r
+            src = getattr(home, cattr)[name]
+        # a child of the restored copy, then the restored copy itself
+        e = getattr(home, cattr)[name]
+        for sub in ("sections", "props", "data_arrays", "tags", "sources"):
+            lst = getattr(e, sub, None)
+            if lst is None or kind in ("tag", "mtag", "array") or not len(lst):
+                continue
+            cname = lst[0].name
+            del lst[cname]
+            r.transitions += 1
+            r.evals += 1
+            if cname in getattr(getattr(home, cattr)[name], sub):
+                r.viol("C20|%s|child-of-restored-copy-cannot-be-deleted" % cls, "deleting %s[%r] of the restored copy had no effect" % (sub, cname), {})
+                return r
+            if not same(getattr(away, cattr)[name], "copy-in-other-file", "delete-child-of-restored-copy"):
+                return r
+            break
+        del getattr(home, cattr)[name]
+        r.transitions += 1
+        r.evals += 1
+        if name in getattr(home, cattr) or any(x.name == name for x in getattr(home, cattr)):
+            r.viol("C20|%s|restored-copy-cannot-be-deleted" % cls, "the restored copy is still in its container after its deletion", {})
+            return r
+        try:
+            cp(home, getattr(away, cattr)[name])
+        except Exception as ex:  # noqa
+            r.viol("C20|%s|name-not-free-after-deletion" % cls, "copying back after the deletion raises %s: %s" % (type(ex).__name__, str(ex)[:100]), {})
+            return r
+        if not same(getattr(home, cattr)[name], "restored-copy", "copy-back-again"):
+            return r
+        f.close()
+        f = nix.File.open(p1, nix.FileMode.ReadOnly)
+        if not same(getattr(home_of(f), cattr)[name], "restored-copy", "reopened"):
+            return r
+        r.traces += 1
+        r.outcomes.add("restored:" + kind)
+        return r
+    except (KeyError, IndexError, RuntimeError, ValueError, AttributeError) as ex:
+        # something that must be there is not (or cannot be used): the history itself contains no refused call
+        r.viol("C20|%s|step-raises-%s" % (cls, type(ex).__name__), "a step of the restore history raises %s: %s" % (type(ex).__name__, str(ex)[:120]), {})
+        return r
+    finally:
+        env.safe_close(f)
+        env.safe_close(g)
+        env.rm(p1)
+        env.rm(p2)
+
+
+
 def run_case(case):
+    if case.get("k") == "restore":
+        return run_restore(case)
     r = R()
     r.evals = 1
     kind = case["kind"]
@@ -220,6 +388,18 @@ def run_case(case):
                 # 200 000 float64 values (1.6 MB, several chunks); the last element is not zero
                 bd = f.blocks["blk"].create_data_array("bigdata", "signal", data=np.arange(200000, dtype=np.float64) + 1)
                 bd.append_sampled_dimension(0.5, unit="ms")
+            if kind == "array-empty":
+                nd = f.blocks["blk"].create_data_array("nodata", "signal", dtype=nix.DataType.Double, shape=(0,), unit="mV", label="nothing yet")
+                nd.append_sampled_dimension(0.5, unit="ms")
+            if kind == "array-empty2d":
+                nd = f.blocks["blk"].create_data_array("nodata2", "signal", data=np.zeros((0, 3)), unit="mV")
+                nd.append_sampled_dimension(0.5, unit="ms")
+                nd.append_set_dimension(["a", "b", "c"])
+            if kind == "frame-empty":
+                nr = f.blocks["blk"].create_data_frame("norows", "table", col_dict=dict([("t", np.float64), ("n", str)]))
+                nr.units = ["ms", None]
+            if kind == "property-empty":
+                f.sections["sec"].create_property("novalues", nix.DataType.Int64).unit = "mV"
             if kind == "section-bare-parent":
                 kid = f.create_section("bare", "sectype").create_section("kid", "sectype")      # the parent has no properties
                 kid.create_property("kp", [2.5])
@@ -274,7 +454,7 @@ def run_case(case):
                     # something of that name already lives in the destination
                     if kind.startswith("array"):
                         dest.create_data_array("taken", "t", data=np.array([1.0]))
-                    elif kind == "frame":
+                    elif kind.startswith("frame"):
                         dest.create_data_frame("taken", "t", col_dict={"c": int})
                     elif kind == "tag":
                         dest.create_tag("taken", "t", [0.0])
